@@ -255,6 +255,27 @@ def _metrics():
         invariants_note="MC config checks the identities rmse^2*n = sse, cvrmse^2*mean^2 = rmse^2, adjusted >= plain, 0 <= r^2 <= 1, bias^2 <= mse, mae <= rmse and the gate table")
 
 
+def _curve():
+    def variants(tier, r, cin):
+        vs = ["daily:America/Chicago", "daily:Asia/Kolkata", "billing:America/Chicago"]
+        return vs if tier == "thorough" else [vs[0], r.choice(vs[1:])]
+
+    return runner.PureSpec(
+        prop="C11", module="Curve", trace_module="CurveTrace", driver="drivers.curve",
+        cfg={"quick": "Curve_quick.cfg", "thorough": "Curve_thorough.cfg"}, sample={"quick": None, "thorough": None}, variants=variants,
+        spec_files=["Curve.tla", "CurveDefs.tla", "CurveTrace.tla", "Rat.tla"],
+        rule="TLC enumerates the seven model shapes over a grid of balance points, slopes (dyadic rationals) and smoothing fractions; each document "
+             "is probed at -60..140 F including the balance points themselves, the shifted balance points and +-1/4 F around them; every document is "
+             "loaded with from_dict and predicted through DailyModel and BillingModel; non-trivial = any shape but the flat one",
+        assumptions=["documents a fit can emit: balance points strictly inside the recorded temperature limits, heating balance point below the cooling one",
+                     "unsmoothed sides and the flat part are compared exactly (dyadic inputs); a smoothed side is bounded between its asymptote (the straight "
+                     "line through the stored balance point) and the line through the shifted balance point, to 1/1000; how fast it approaches the "
+                     "asymptote is not decided",
+                     "load additivity is read as 'to 4 ulp' ((m - c) + c is not m in binary64)"],
+        invariants_note="MC config checks on the documented formula: bounds ordered and never below the base load, continuity at the flat-part balance "
+                        "points, bounds monotone outwards, the flat part is non-empty")
+
+
 class C07Entry:
     """C07 = RowFrame (row-level masking, daily and billing) + the aggregated-column clauses of Agg (billing aggregations)."""
     OWN_AGG = {"ObservedIsSumOfDailyRows", "PredictedIsSumOfDailyRows", "SavingsFromAggregatedColumnsEqualRowwiseSavings", "ObservedColumnKept"}
@@ -312,7 +333,7 @@ class LifeEntry:
         return lifeprops.selftest(self.prop)
 
 
-_REG = {"C20": lambda: PureEntry(_window()), "C07": lambda: C07Entry(), "C19": lambda: PureEntry(_agg()), "C06": lambda: C06Entry(), "C18": lambda: PureEntry(_seg()), "C14": lambda: PureEntry(_settings()), "C10": lambda: PureEntry(_suff()), "C13": lambda: PureEntry(_split()), "C17": lambda: PureEntry(_prep()), "C16": lambda: PureEntry(_metrics())}
+_REG = {"C20": lambda: PureEntry(_window()), "C07": lambda: C07Entry(), "C19": lambda: PureEntry(_agg()), "C06": lambda: C06Entry(), "C18": lambda: PureEntry(_seg()), "C14": lambda: PureEntry(_settings()), "C10": lambda: PureEntry(_suff()), "C13": lambda: PureEntry(_split()), "C17": lambda: PureEntry(_prep()), "C16": lambda: PureEntry(_metrics()), "C11": lambda: PureEntry(_curve())}
 for _p in ("C01", "C02", "C03", "C04", "C05"):
     _REG[_p] = (lambda p: (lambda: LifeEntry(p)))(_p)
 
